@@ -372,6 +372,8 @@ def run(ctx) -> None:
     ctx.rule(rule_revision_flow)
     ctx.rule(rule_fresh_derived)
     ctx.rule(rule_template_yaml, db)
+    from . import c03
+    ctx.rule(c03.rule_rotkh_value, "C12.rotkh-value")
     ctx.chk.assumptions = ["hardware layouts are as the specs state (3 IFR spec files with overlapping registers are known findings)", "register arithmetic itself is decided in C11",
                            "not decided: schema validity of generated templates, parse(export) identity at value level, verifier acceptance"]
 
